@@ -75,7 +75,10 @@ NAMES = ['y', 'q', 'zz', 'x', 'a', 'center', 'textbf', 'item', 'itemize', 'emph'
 STRINGS = ['S', ' t ', 'a b', 'x1', '', ' ']
 FIXED = c05.FIXED + ['\\a[o]{p}{q}\\a[o]{p}{q}', '\\begin{b}[o]{c \\x}t\\end{b}\\begin{b}[o]{c \\x}t\\end{b}',
                      '\\begin{b}\\begin{b}t\\end{b}\\end{b}', '\\q{\\q{\\q{r}}}', '\\begin{a}{c}\\end{a}',
-                     '\\begin{a} \\end{a}$ m$', '\\x{a}{b}{c}{d} \\x{a}{b}{c}{d}']
+                     '\\begin{a} \\end{a}$ m$', '\\x{a}{b}{c}{d} \\x{a}{b}{c}{d}',
+                     # text-only environments whose stored body has several pieces, one of them non-blank
+                     '\\begin{quote}\n\nwords\\end{quote}', '\\begin{a}%c\n\\end{a}\\begin{a}%c\n\\end{a}',
+                     '$\n\nw$ {\n\nw}', '\\[\n\nw\\]\\begin{a}{c}\n\nw\\end{a}', '\\begin{b}\n\n\n\nw\\end{b}']
 
 
 def _crc(*xs):
@@ -515,7 +518,9 @@ def oracle(ctx, seeds, scale):
               'rename of every command/environment to plain identifiers: str(soup) changes exactly at the name span after the '
               'backslash, resp. at the two name spans inside \\begin{..} and \\end{..}; find_all(old) loses exactly that node '
               '(identity of .expr, order kept), find_all(new) gains exactly it, count/find agree. node.string = s: exactly the '
-              'inside of the single argument, resp. the body of the text-only environment/group/math region, becomes s. '
+              'inside of the single argument, resp. the body of the text-only environment/group/math region, becomes s (the '
+              'whole stored body, hidden blank-only pieces included: bodies like a blank line followed by words, or a comment '
+              'followed by the line break, are among the hand-written and the generated documents). '
               'node.args assigned the reversal ([::-1] and .reverse()), prefixes, slices, permutations of its own arguments '
               '(TexArgs slicing) or foreign arguments, or the node\'s own list object put back after nothing / reverse() / '
               'pop(i) / insert(i, group) / append(group) on it in place (a = node.args; ..; node.args = a: the list as it is '
